@@ -148,6 +148,7 @@ func c03(tier string) []*explore.Scenario {
 			}
 		}
 	}
+	out = append(out, c05EmptyReplies("C03", 1))
 	out = append(out, c03Foreign())
 	// over the HTTP transport: the caller sees the handler's outcome, not a reset for a message that overtook its stream's opening
 	out = append(out, explore.Sharded(c19HTTPOrder("C03", 2, 2), 8)...)
